@@ -859,6 +859,26 @@ fn eval_frame(
                         )
                     });
                 }
+                // "yields either well-formed values or an error": RFC 9000 §19.8 / §19.6 — the
+                // largest offset delivered on a stream (offset + length) cannot exceed 2^62-1;
+                // receipt of a frame that exceeds it is a FRAME_ENCODING_ERROR
+                {
+                    const VMAX: u64 = (1 << 62) - 1;
+                    let over = match &frame {
+                        Frame::Stream(sf, data) => sf.offset().checked_add(data.len() as u64).is_none_or(|e| e > VMAX).then_some("STREAM"),
+                        Frame::Crypto(cf, data) => cf.offset().checked_add(data.len() as u64).is_none_or(|e| e > VMAX).then_some("CRYPTO"),
+                        _ => None,
+                    };
+                    if let Some(which) = over {
+                        acc.viol(&format!("malformed-value/{which}-offset-plus-length-exceeds-2^62-1@FrameReader::next"), input, || {
+                            format!(
+                                "FrameReader ({}) decoded a {which} frame whose offset + data length exceeds 2^62-1 instead of answering FRAME_ENCODING_ERROR: {kind} from {}",
+                                pt.name(),
+                                hex(input)
+                            )
+                        });
+                    }
+                }
                 if ok_items as usize > input.len() {
                     acc.viol("hang/more-items-than-bytes@FrameReader::next", input, || {
                         format!("{ok_items} frames from a {}-byte payload {}", input.len(), hex(input))
